@@ -6,7 +6,8 @@ Decided here are structural clauses that are genuine necessary conditions of it 
   R-C18-1  FileName: every use of the position of the last '.' as an extension boundary is reached only on
            paths on which that position was compared with the last path separator (typestate, path-sensitive;
            the belief "a dot before the last separator is not an extension dot" is the one name()/setExt() hold);
-           every sibling locates the extension dot with the same kind of search (first / last '.') as ext().
+           every sibling locates the extension dot with the same kind of search (first / last '.') as ext() and
+           draws the same boundary for a dot that is the first character of the last component (dot < start / <=).
   R-C18-2  token filter: every branch condition on the token length that dominates a push_back of a token in
            tokenize / split(char) / split(set) is implied by `length >= 1` (relational normal form).
   R-C18-3  SI ladder of prettyDouble / prettyNumber: threshold == divisor == value of the printed suffix,
@@ -24,6 +25,8 @@ Decided here are structural clauses that are genuine necessary conditions of it 
            count and position, parseAndRemove advances iff nothing was consumed.
   R-C18-6  longestBeginningMatch bounds std::mismatch by the shorter length; beginsWith compares the match
            length with the length of the prefix argument.
+  R-C18-7  (also) a string delimiter is read the same way by every search of a tokeniser: as a set of characters
+           (find_first_of / find_first_not_of) or as one separator string (find); mixing both is reported.
   R-C18-7  tokenizer loop shape: a token runs from the token start to the found delimiter, the search for the
            delimiter starts at the token start, the next token starts right behind the delimiter; split(char)
            reads with getline(stream(input), token, delimiter parameter).
@@ -718,9 +721,61 @@ def check_tokens(ctx, tu, qnames):
                                  alias, at, loc, rest_len=Poly.atom(('size', src)) - p)
                     check_extent(ctx, tu, tf, R7, inst, '%s|%s|%s|%s' % (R7, file, fname, kind), call, pos, extra, src, p,
                                  n, at, loc)
+            n7 += check_delim_class(ctx, tu, tf, f, sig, file, fname, R7)
             for opt in sorted(getattr(x, 'option_notes', ())):
                 ctx.note('%s: analysed with option `%s` off (the clause with the option on is not decided)' % (fname, opt))
     return n2, n7
+
+
+SET_SEARCH = ('find_first_of', 'find_first_not_of', 'find_last_of', 'find_last_not_of')
+SEQ_SEARCH = ('find', 'rfind')
+
+
+def delim_param(tu, x, e):
+    """(decl id, info) of the parameter a delimiter argument stands for: the parameter itself or param.c_str() / .data()"""
+    d, v = x.var_of(e)
+    if d is not None:
+        return d, v
+    e = tu.strip(e, casts=True)
+    if e is not None and e.get('kind') == 'CXXMemberCallExpr' and last_name(tu.sd(e).get('q')) in ('c_str', 'data'):
+        s, obj, args = tu.call_parts(e)
+        return x.var_of(obj)
+    return None, None
+
+
+def check_delim_class(ctx, tu, tf, f, sig, file, fname, rule):
+    """in a tokeniser whose delimiter is a string, every search for it must read it the same way: as a set of
+    characters (find_first_of / find_first_not_of ...) or as one separator string (find / rfind)"""
+    x = tf.x
+    uses = {}
+    for b, i, n in x.g.stmts():
+        fc = tf.find_call(n) if n.get('kind') == 'CXXMemberCallExpr' else None
+        if fc is None:
+            continue
+        name, skey, args, callnode = fc
+        if not args or not (skey[0] == 'var' and skey[1] in x.params):
+            continue
+        d, v = delim_param(tu, x, args[0])
+        if d is None or d not in x.params or 'basic_string' not in (v['ct'] or ''):
+            continue
+        cls = 'set' if name in SET_SEARCH else 'seq' if name in SEQ_SEARCH else None
+        if cls:
+            uses.setdefault(d, {}).setdefault(cls, callnode)
+    n = 0
+    for d, u in uses.items():
+        n += 1
+        pname = x.vars[d]['name']
+        inst = '%s: searches for delimiter `%s`' % (sig, pname)
+        if len(u) == 2:
+            ctx.violation(rule, inst, '`%s` reads `%s` as a set of delimiter characters while `%s` looks for the whole string `%s` as one '
+                          'separator: the start and the end of a token are located with different notions of a delimiter, so for a set '
+                          'of two or more characters tokens run across delimiters (split("a b,c", " ,") gives ["a b,c"])'
+                          % (tu.show(u['set']), pname, tu.show(u['seq']), pname), tu.loc(u['seq']),
+                          key='%s|%s|%s|delimiter-class-mixed' % (rule, file, fname))
+        else:
+            ctx.ok(rule, inst, 'always read as %s' % ('a set of characters' if 'set' in u else 'one separator string'),
+                   tu.loc(list(u.values())[0]))
+    return n
 
 
 def guard_leaves(tu, x, pos, extra, at):
@@ -867,7 +922,7 @@ def check_extent(ctx, tu, tf, rule, inst, key, call, pos, extra, src, p, n, at, 
             if skey != src:
                 out.append(('und', '`%s` searches another string' % tu.show(callnode)))
                 continue
-            dd, dv = x.var_of(args[0]) if args else (None, None)
+            dd, dv = delim_param(tu, x, args[0]) if args else (None, None)
             if dd is None or dd not in x.params:
                 out.append(('und', 'delimiter argument of `%s` is not a parameter' % tu.show(callnode)))
             else:
@@ -2624,6 +2679,7 @@ class FileNameTS:
         self.field = field
         self.FKEY = fkey or ('field', ('this',), field)
         self.depth = depth
+        self.boundaries = []      # ('lt' | 'le', comparison node): how the dot is compared with the start of the last component
         self.ret_vals = set()     # (abstract value, 'nosep' | 'sep' | None) of an integer-returning helper
         self.helper_kinds = {}    # dot-search kinds found in helpers that were followed
         self.uses = []        # (kind, var name, node)
@@ -2964,6 +3020,9 @@ class FileNameTS:
             if u not in self.uses:
                 self.uses.append(u)
         self.unknown_cmp += [c for c in sub.unknown_cmp if c not in self.unknown_cmp]
+        for bd in sub.boundaries:
+            if not any(b[0] == bd[0] for b in self.boundaries):
+                self.boundaries.append(bd)
         self.followed = getattr(self, 'followed', [])
         if hf not in self.followed:
             self.followed.append(hf)
@@ -3100,6 +3159,12 @@ class FileNameTS:
             lv, rv, la, ra, op = rv, lv, ra, la, flip[op]
         if lv is not None and la in ('D', 'D?', 'DG', 'DG?', 'DX') and ra in ('L', 'S', 'S?', 'Z'):
             v = self.root(d, lv)
+            # where is the boundary between "extension dot" and "not an extension dot"?  dot < start  ('lt': a dot that
+            # is the first character of the last component counts as the extension dot)  or  dot <= start  ('le')
+            if ra in ('S', 'S?') or (ra in ('L', 'Z') and (ra == 'L' or rv is not None)):
+                cls = 'lt' if ra in ('S', 'S?') or op in ('<', '>=') else 'le' if op in ('<=', '>') else None
+                if cls is not None and not any(b[0] == cls for b in self.boundaries):
+                    self.boundaries.append((cls, c))
             if ra == 'Z':
                 return [] if op == '<' else [st]
             guarded = {'D': 'DG', 'D?': 'DG?', 'DG': 'DG', 'DG?': 'DG?'}.get(la)
@@ -3179,6 +3244,7 @@ def check_filename(ctx, tu):
         return 0, 0
     n1 = n8 = 0
     searches = {}
+    tstates = {}
     for f in sorted(tu.functions.values(), key=lambda f: f['l']):
         if f.get('rec') != FNAME or f['dep'] or tu.cfg(f) is None or f.get('ctor') or f.get('dtor'):
             continue
@@ -3190,6 +3256,7 @@ def check_filename(ctx, tu):
         name = last_name(f['q'])
         if has_dot:
             searches[name] = (kinds, f)
+            tstates[name] = ts
         if not (has_dot or has_sep):
             continue
         file, fname = tu.fn_file(f), fn_name(f)
@@ -3297,6 +3364,36 @@ def check_filename(ctx, tu):
                           key='%s|%s|%s|dot-search-%s-vs-%s' % (R1, tu.fn_file(f), fn_name(f), wrong[0], want))
         else:
             ctx.ok(R1, inst, 'searches %s like ext()' % words[want], tu.fn_loc(f))
+    # ---- boundary agreement: a dot that is the first character of the last component (".bashrc")
+    rts = tstates.get('ext')
+    rcls = {b[0] for b in rts.boundaries} if rts is not None else set()
+    if not rcls:
+        rcls = {'lt'} if rts is not None and not rts.unknown_cmp else set()   # no comparison with the start: a leading dot counts
+    for name in sorted(tstates):
+        if name == 'ext' or name not in CUT_SPEC:
+            continue
+        ts = tstates[name]
+        f = ts.f
+        inst = '%s: leading dot of the last component treated like ext()' % fn_name(f)
+        mine = {b[0] for b in ts.boundaries}
+        if len(rcls) != 1 or ts.unknown_cmp or (rts is not None and rts.unknown_cmp):
+            ctx.undecided(R1, inst, 'cannot tell how ext() / %s compare the dot with the start of the last component' % name, tu.fn_loc(f))
+            continue
+        want = list(rcls)[0]
+        if not mine:
+            mine = {'lt'}
+        wrong = [b for b in ts.boundaries if b[0] != want]
+        if wrong and mine != {want}:
+            node = wrong[0][1]
+            ctx.violation(R1, inst, 'for a last component whose last dot is its first character (".bashrc", "dir/.config") `%s` decides '
+                          '"%s" while ext() decides "%s": the siblings disagree on where the extension begins (%s)'
+                          % (tu.show(node), 'no extension' if wrong[0][0] == 'le' else 'extension dot',
+                             'no extension' if want == 'le' else 'extension dot',
+                             'setExt(".x") gives ".bashrc.x" although name() is "" and ext() is "bashrc"' if name == 'setExt'
+                             else 'base() != name() + "." + ext() or dropExt/setExt do not recompose'), tu.loc(node),
+                          key='%s|%s|%s|dot-boundary-%s-vs-%s' % (R1, tu.fn_file(f), fn_name(f), wrong[0][0], want))
+        else:
+            ctx.ok(R1, inst, 'boundary `dot %s start` like ext()' % ('<' if want == 'lt' else '<='), tu.fn_loc(f), nontrivial=bool(ts.boundaries))
     return n1, n8
 
 
